@@ -73,6 +73,11 @@ def render(prog):
             done.add(s[1])
             alts = [", ".join(lit_str(l) for l in b) for b in groups[s[1]]]
             out.append("%s :- (%s)." % (atom_str(s[1]), " ; ".join(alts)))
+        elif s[0] in ("rule", "ad") and len(s[2]) >= 2 and all(pos for pos, _ in s[2][:2]):
+            # (same semantics, other shape of the ground program: the first two literals as a nested conjunction)
+            text = stmt_str((s[0], s[1], [])).rstrip(".")
+            rest = ", ".join(lit_str(l) for l in s[2][2:])
+            out.append("%s :- (%s, %s)%s." % (text, lit_str(s[2][0]), lit_str(s[2][1]), (", " + rest) if rest else ""))
         else:
             out.append(stmt_str(s))
     return "\n".join(out) + "\n"
@@ -131,6 +136,18 @@ class Gen(object):
                 body = [(True, self.body_atom(r.choice(prob_atoms), ["a", "b"]))]
             prog.append(("ad", [(p, ("h%d" % j, ())) for j, p in enumerate(ps)], body))
             prob_atoms += [("h%d" % j, 0) for j in range(n)]
+        if self.ads and r.random() < 0.2 and prob_atoms:
+            # two probabilistic rules for one head (the head has several proofs, each with a choice of its own), or one
+            # non-ground probabilistic rule with several groundings per head
+            if r.random() < 0.6:
+                for _ in range(2):
+                    body = [(True, self.body_atom(r.choice(prob_atoms), ["a", "b"])) for _ in range(r.randint(1, 2))]
+                    prog.append(("ad", [(self.pick_prob(), ("pr", ()))], body))
+                prob_atoms.append(("pr", 0))
+            else:
+                prog.append(("ad", [(self.pick_prob(), ("pr", ())), (Fraction(1, 10), ("ps", ()))],
+                             [(True, ("d", ("X",))), (True, self.body_atom(r.choice(prob_atoms), ["X"]))]))
+                prob_atoms += [("pr", 0), ("ps", 0)]
         if self.ads and r.random() < 0.25:
             # a non-ground annotated disjunction: one independent choice per element of the domain
             n = r.randint(2, 3)
